@@ -123,6 +123,7 @@ def _o_convert(call):
 
 
 def install():
+    probe.enable_recall("C16.recall", every=5)
     m = "esutil.numpy_util:"
     for f in ("to_native", "to_big_endian", "to_little_endian", "byteswap"):
         probe.instrument(m + f, [_o_convert], inplace=lambda a, k: {"arg0", "array"} if (len(a) > 1 and a[1]) or k.get("inplace") else ())
